@@ -108,11 +108,21 @@ class Suite:
 def run_cmd(argv, stdin=None, env=None, cwd=None, timeout=120, preexec_fn=None):
     """subprocess wrapper -> (returncode, stdout bytes, stderr bytes).  A timeout is *inconclusive*, never a verdict:
     returns (None, out, err)."""
-    try:
-        p = subprocess.run(argv, input=stdin, stdout=subprocess.PIPE, stderr=subprocess.PIPE, env=env, cwd=cwd, timeout=timeout, preexec_fn=preexec_fn)
-        return p.returncode, p.stdout, p.stderr
-    except subprocess.TimeoutExpired as e:
-        return None, e.stdout or b"", e.stderr or b""
+    import errno
+    import time
+    for attempt in range(6):
+        try:
+            p = subprocess.run(argv, input=stdin, stdout=subprocess.PIPE, stderr=subprocess.PIPE, env=env, cwd=cwd, timeout=timeout, preexec_fn=preexec_fn)
+            return p.returncode, p.stdout, p.stderr
+        except subprocess.TimeoutExpired as e:
+            return None, e.stdout or b"", e.stderr or b""
+        except OSError as e:
+            # the machine, not the tool: fork/exec refused for lack of memory or process slots, or a binary being relinked right now
+            if e.errno in (errno.EAGAIN, errno.ENOMEM, errno.ETXTBSY, errno.EMFILE, errno.ENFILE) and attempt < 5:
+                time.sleep(1 + 2 * attempt)
+                continue
+            raise
+    raise RuntimeError("unreachable")
 
 
 def clean_env(extra=None):
